@@ -73,7 +73,18 @@ func c07Build(p c07Case) *h.Scenario {
 		Groups:   []h.GroupSpec{g},
 		Slots:    1,
 		Quantum:  Q,
-		FaultOps: map[string]bool{sim.OpK8sGet: true, sim.OpK8sUpdate: true},
+		FaultOps:         map[string]bool{sim.OpK8sGet: true, sim.OpK8sUpdate: true},
+		MaxEventsPerSlot: 1,
+		// the API persistently rejecting one tainted node (one deviation) next to the per-call failures
+		Events: func(hh *h.Hist, slot int) []h.Event {
+			var ev []h.Event
+			for _, n := range groupNodes(hh, g, 8) {
+				if _, tainted := h.HasTaint(n, h.TaintKey); tainted {
+					ev = append(ev, evRejectNode(n.Name))
+				}
+			}
+			return ev
+		},
 		Init: func(hh *h.Hist) {
 			a := InitASGs(hh)[0]
 			type nd struct {
